@@ -8,10 +8,11 @@ from harness import core, tlc
 from harness.core import cps, uncps
 from . import codec_common as cc
 
-DIRS = ["system", "codec"]
+DIRS = ["system", "codec", "notedata", "beat"]
 EDIT_OPS = {"getattr", "setattr", "delattr", "setkey", "delkey", "appendchart", "removechart", "swapcharts",
             "setchartitem", "delchartitem", "setchartfield", "setchartextra", "create"}
 SAVE_OPS = {"save", "reopen", "load"}
+READ_OPS = {"readnotes", "readtiming"}
 CONVERT_OPS = {"tossc"}
 ATTRS = {"sm": ["title", "artist", "stops", "bgchanges"], "ssc": ["title", "artist", "stops", "bgchanges"]}
 SMF = ["stepstype", "description", "difficulty", "meter", "radarvalues", "notes"]
@@ -80,47 +81,47 @@ def session(rid, seed):
         r = rng.random()
         keys = list(sf.keys())
         try:
-            if r < 0.14:
+            if r < 0.10:
                 k = rng.choice(keys) if keys and rng.random() < 0.5 else rng.choice(["TITLE", "STOPS", "FREEZES", "BGCHANGES", "ANIMATIONS", "XKEY", "ARTIST"])
                 v = val(rng)
                 sf[k] = v
                 log("setkey", sf, k=cps(k), v=cps(v))
-            elif r < 0.22:
+            elif r < 0.15:
                 k = rng.choice(keys) if keys and rng.random() < 0.7 else "NOPE"
                 try:
                     del sf[k]
                     log("delkey", sf, k=cps(k), res="ok")
                 except KeyError:
                     log("delkey", sf, k=cps(k), res="KeyError")
-            elif r < 0.32:
+            elif r < 0.22:
                 a = rng.choice(ATTRS[fmt])
                 got = getattr(sf, a)
                 log("getattr", sf, name=cps(a.upper()), res=cps(got))
-            elif r < 0.44:
+            elif r < 0.31:
                 a = rng.choice(ATTRS[fmt])
                 v = val(rng)
                 setattr(sf, a, v)
                 log("setattr", sf, name=cps(a.upper()), v=cps(v))
-            elif r < 0.5:
+            elif r < 0.35:
                 a = rng.choice(ATTRS[fmt])
                 try:
                     delattr(sf, a)
                     log("delattr", sf, name=cps(a.upper()), res="ok")
                 except KeyError:
                     log("delattr", sf, name=cps(a.upper()), res="KeyError")
-            elif r < 0.58 and len(sf.charts) < 3:
+            elif r < 0.41 and len(sf.charts) < 3:
                 c = (SMChart if fmt == "sm" else SSCChart).blank()
                 sf.charts.append(c)
                 log("appendchart", sf, chart=chart_proj(c, fmt))
-            elif r < 0.62 and sf.charts:
+            elif r < 0.44 and sf.charts:
                 j = rng.randrange(len(sf.charts))
                 sf.charts.pop(j)
                 log("removechart", sf, j=j + 1)
-            elif r < 0.65 and len(sf.charts) >= 2:
+            elif r < 0.46 and len(sf.charts) >= 2:
                 i, j = rng.sample(range(len(sf.charts)), 2)
                 sf.charts[i], sf.charts[j] = sf.charts[j], sf.charts[i]
                 log("swapcharts", sf, i=i + 1, j=j + 1)
-            elif r < 0.78 and sf.charts:
+            elif r < 0.55 and sf.charts:
                 j = rng.randrange(len(sf.charts))
                 c = sf.charts[j]
                 if fmt == "sm":
@@ -145,7 +146,7 @@ def session(rid, seed):
                             continue                      # (key write of the standard name next to the alias: both present - not generated)
                         c[name] = v
                     log("setchartitem", sf, j=j + 1, name=cps(name), v=cps(v))
-            elif r < 0.82 and sf.charts and fmt == "ssc":
+            elif r < 0.58 and sf.charts and fmt == "ssc":
                 j = rng.randrange(len(sf.charts))
                 c = sf.charts[j]
                 k = rng.choice([k for k in c.keys() if k not in ("NOTES", "NOTES2")] or ["NOPE"])
@@ -154,12 +155,59 @@ def session(rid, seed):
                     log("delchartitem", sf, j=j + 1, k=cps(k), res="ok")
                 except KeyError:
                     log("delchartitem", sf, j=j + 1, k=cps(k), res="KeyError")
-            elif r < 0.85 and sf.charts and fmt == "sm":
+            elif r < 0.61 and sf.charts and fmt == "sm":
                 j = rng.randrange(len(sf.charts))
                 ex = [val(rng, 4).replace("#", "") for _ in range(rng.randint(0, 2))]
                 sf.charts[j].extradata = ex or None
                 log("setchartextra", sf, j=j + 1, extra=[cps(x) for x in ex])
-            elif r < 0.93:
+            elif r < 0.72 and sf.charts:
+                # write well-formed note data into a chart, or read a chart's notes back through NoteData
+                from simfile.notes import NoteData
+                from . import notedata_common as nc
+                from . import c14
+                j = rng.randrange(len(sf.charts))
+                c = sf.charts[j]
+                if rng.random() < 0.5:
+                    t = nc.gen_text(rng, max_chars=160)
+                    if fmt == "sm":
+                        t = t.strip()
+                        c.notes = t
+                        log("setchartfield", sf, j=j + 1, f=6, v=cps(t))
+                    else:
+                        c.notes = t
+                        log("setchartitem", sf, j=j + 1, name=cps("NOTES"), v=cps(t))
+                else:
+                    txt = c.notes
+                    if txt is None or not isinstance(txt, str) or any(ch not in "0123456789AFKLM[],&\r\n \t" for ch in txt) or not txt.strip():
+                        continue
+                    try:
+                        notes = [nc.proj_note(x) for x in NoteData(c)]
+                    except Exception:  # noqa  (arbitrary text in a NOTES value is not note data)
+                        continue
+                    log("readnotes", sf, j=j + 1, res=notes)
+            elif r < 0.80:
+                from simfile.timing import TimingData
+                from . import c14
+                name = rng.choice(["BPMS", "STOPS", "DELAYS", "WARPS"])
+                if rng.random() < 0.6:
+                    rows = ["%d.%03d=%d.%02d" % (rng.randint(0, 90), rng.choice([0, 250, 500, 333, 21]), rng.randint(0, 400), rng.randint(0, 99))
+                            for _ in range(rng.randint(0, 3))]
+                    v = rng.choice([",", ",\n", " , "]).join(rows)
+                    sf[name] = v
+                    log("setkey", sf, k=cps(name), v=cps(v))
+                else:
+                    if not sf.get("BPMS") and name != "BPMS":
+                        pass
+                    try:
+                        td = TimingData(sf)
+                        tevs = c14.pevs(getattr(td, name.lower()))
+                        if tevs is None:
+                            continue
+                        log("readtiming", sf, name=cps(name), res={"st": "ok", "evs": tevs})
+                    except Exception as e:  # noqa
+                        # TimingData reads all five fields at once: only a failure caused by THIS list is attributable
+                        continue
+            elif r < 0.95:
                 on_disk = rng.random() < 0.4 and "\r" not in "".join(v or "" for v in sf.values())
                 try:
                     if on_disk:
@@ -213,7 +261,7 @@ def run_sessions(ctx, n, seed):
     for part in parts:
         text = "".join(json.dumps(s, ensure_ascii=True) + "\n" for s in part)
         jobs2.append(dict(module="Trace_System", cfg="SPECIFICATION TraceSpec\nINVARIANT InvType\n", dirs=DIRS,
-                          files={"trace.ndjson": text}, env={"TRACE_FILE": "trace.ndjson"}, timeout=3000, heap="3g"))
+                          files={"trace.ndjson": text}, env={"TRACE_FILE": "trace.ndjson"}, timeout=3000, heap="4g"))
     results = tlc.run_many(jobs2, parallel=16)
     verdict = {}
     for res in results:
